@@ -9,7 +9,7 @@ use serde_json::json;
 use super::common::{list_wal_files, wal_number, Driver};
 use crate::gen::Profile;
 use crate::ops::{short, Op, Outcome, Snapshot, ALL_POLICIES};
-use crate::runner::{Acc, Ctx, Monitor, Tier};
+use crate::runner::{Acc, Ctx, Monitor, Tier, REAL_BASE};
 use crate::shim::Ev;
 use crate::util::{hash_combine, Rng};
 
@@ -25,8 +25,12 @@ impl Monitor for C06 {
     fn num_cases(&self, tier: Tier) -> u64 {
         tier.pick(1600, 40_000)
     }
+    fn num_realsize_cases(&self, tier: Tier) -> u64 {
+        tier.pick(0, 12)
+    }
     fn floors(&self, tier: Tier) -> Vec<(&'static str, u64)> {
         vec![
+            ("realsize_checks_where_files_were_unlinked", tier.pick(0, 10)),
             ("checks_after_truncate", tier.pick(20_000, 400_000)),
             ("checks_after_delete_queue", tier.pick(1_000, 20_000)),
             ("checks_after_open", tier.pick(3_000, 60_000)),
@@ -47,8 +51,10 @@ impl Monitor for C06 {
         let mut rng = Rng::from_parts(&parts);
         let profile = *rng.pick(&[Profile::Gc, Profile::Gc, Profile::Gc, Profile::Idle, Profile::Idle, Profile::Delete, Profile::Mixed, Profile::Huge]);
         let policy = if rng.chance(3, 4) { if rng.chance(1, 2) { crate::ops::Policy::AlwaysFlush } else { crate::ops::Policy::AlwaysFsync } } else { *rng.pick(&ALL_POLICIES) };
-        let nq = rng.usize(1, 5);
-        let nops = rng.usize(40, 140);
+        let real = case >= REAL_BASE;
+        let profile = if real { Profile::Gc } else { profile };
+        let nq = if real { rng.usize(1, 3) } else { rng.usize(1, 5) };
+        let nops = if real { rng.usize(30, 50) } else { rng.usize(40, 140) };
         let dir = ctx.scratch.sub("c06");
         let key = parts[2] ^ parts[1].rotate_left(32);
         let mut d = match Driver::start(&dir, policy, key, &parts, profile, nq) {
@@ -155,6 +161,13 @@ impl Monitor for C06 {
             let unlinked_now = d.io.unlinks - before_unlinks;
             acc.eval();
             acc.count(&format!("checks_after_{}", kind));
+            if real {
+                acc.count("realsize_checks");
+                if unlinked_now > 0 {
+                    acc.count("realsize_checks_where_files_were_unlinked");
+                }
+                acc.max("max_realsize_file_bytes", present.iter().map(|f| f.1).max().unwrap_or(0));
+            }
             if unlinked_now > 0 {
                 acc.count("checks_where_files_were_unlinked");
                 acc.add("files_unlinked_in_checked_calls", unlinked_now);
